@@ -16,6 +16,7 @@ package main
 import (
 	"bytes"
 	"fmt"
+	"net/url"
 	"os"
 	"os/exec"
 	"path/filepath"
@@ -230,7 +231,26 @@ func c12Run(s *jsonapi.Schema, sc schemaSpec, o c12Op) (out string) {
 		if err != nil {
 			return "err " + err.Error()
 		}
-		return oUDoc(d)
+		out := oUDoc(d)
+		// echo: the document just received is marshaled back by the same goroutine
+		var u *jsonapi.URL
+		switch x := d.Data.(type) {
+		case jsonapi.Resource:
+			u, _ = jsonapi.NewURLFromRaw(s, "/"+x.GetType().Name+"/"+url.PathEscape(x.Get("id").(string)))
+		case jsonapi.Collection:
+			if x.Len() > 0 {
+				u, _ = jsonapi.NewURLFromRaw(s, "/"+x.At(0).GetType().Name)
+			}
+		}
+		if u != nil {
+			d.PrePath = "https://h"
+			if b, err := jsonapi.MarshalDocument(d, u); err == nil {
+				out += " echo " + string(b)
+			} else {
+				out += " echo-err"
+			}
+		}
+		return out
 	case "partial":
 		p, err := jsonapi.UnmarshalPartialResource([]byte(o.arg), s)
 		if err != nil {
